@@ -457,7 +457,7 @@ fn main() {
         "acyclic universes of 3-40 POMs (libraries in up to 4 versions, pom-packaged parents in chains of up to 3, BOMs imported by POMs and by BOMs, management at every level, \
          classifiers/types, optional flags, all scopes, 1-3 repositories with mirrors and decoys, 1-6 roots) resolved by the real get_maven_dependencies and by the reference resolver; \
          evaluations = universes judged + text round trips; non-trivial universe = resolved list of >= 3 entries with a mediated version conflict or a managed version or an inherited dependency; \
-         distinct = fingerprint of the mediated tree (depth, scope, artifact identity, type, origin of the declaration and of the managed version, cuts, losses)")
+         distinct = fingerprint of the mediated tree (depth, scope, artifact identity, type, origin of the declaration and of the managed version, cuts, losses); every text case counts as non-trivial, distinct = character-class shape of the displayed coordinate")
         .assume("POM XML is turned into MavenPom by serde-xml-rs, as the repository's downloader does; XML parsing itself is not judged")
         .assume("the reference resolver (refres.rs) is a faithful reading of Maven's documented rules for the stated subset; two formulations of it are cross-checked on every case and the documented examples are canaries")
         .assume("not generated / not judged: interpolation, ranges, exclusions, profiles, re-declared parent dependencies, import vs. ancestor-explicit precedence, explicit entries after a clashing import, <optional> in management, handler-implied classifiers, system-scoped roots with dependencies, unresolvable universes");
